@@ -95,6 +95,7 @@ type PropRec struct {
 	VoteDL   int64  `json:"voteDL"`
 	Goal     int64  `json:"goal"`
 	PassPct  int64  `json:"passPct"`
+	Update   string `json:"update"`
 }
 type VoteRec struct {
 	Opinion int64 `json:"op"`
